@@ -6,6 +6,7 @@ of Clone/Copy/PartialEq/Eq/Hash/Ord/PartialOrd/Default/Drop and the derive list 
 the non-test source, grouped by module; the obligation below says that this group is exactly what the model was written against.
 -/
 import WowSrp.Gen.Constants
+import WowSrp.Gen.Facts
 namespace WowSrp
 
 def expected_structuralAux : List String := ["MatrixCard @src/matrix_card.rs: Clone Ord PartialOrd Eq PartialEq Hash | digit_count u8 width u8 height u8 data",
